@@ -80,6 +80,8 @@ pub fn generate(check: &str, tier: &str, seed: u64, run: u64) -> Case {
             let pr = sync_profile(&mut rng, "lock");
             gen_sync(&mut rng, &pr)
         }
+        "C08" if run % 6 == 3 => crate::gen::gen_wait_loops(&mut rng),
+        "C05" if run % 12 == 3 => crate::gen::gen_wait_loops(&mut rng),
         "C08" => {
             let pr = sync_profile(&mut rng, "wait");
             gen_sync(&mut rng, &pr)
